@@ -2,7 +2,7 @@
       ->  coq/gen/Formulas.v, coq/gen/Profiles.v                                         (property C16)
 
 Reads (never imports simaple):
-  * every YAML document under simaple/data/jobs/resources (PyYAML `safe_load_all`, files in `Path.rglob` order, the
+  * every YAML document under simaple/data/jobs/resources (PyYAML `safe_load_all`, files in sorted `Path.rglob` order, the
     order DirectorySpecRepository uses): every '{{ ... }}' string is lexed and parsed with the token grammar of
     simaple/spec/_math.py into an `expr` of Model/Expr.v; the spec fields SkillLevelPatch.get_skill_level reads
     (`name`, `default_skill_level`, `passive_skill_enabled`, `combat_orders_enabled`); PassiveHyperskill and
@@ -727,7 +727,7 @@ def load_docs(repo):
     if not base.is_dir():
         raise Rejected("resource directory %s missing" % base)
     docs = []
-    for path in base.rglob("*.yaml"):            # the order DirectorySpecRepository.load uses
+    for path in sorted(base.rglob("*.yaml")):    # a fixed order (the harness matches documents to the repository's by content, not position)
         rel = str(path.relative_to(base))
         try:
             with open(path, "r", encoding="utf-8") as f:
